@@ -24,6 +24,8 @@ func allPropsUnsorted() []*propInfo {
 				"C07.6 (shared) AND / OR chains evaluate every term with the right short-circuit value. NOT decided: clock arithmetic (that attempt_at/expires_at values make a message due again), database semantics, the history-level claim itself.",
 			Assumptions: []string{k1Assumption, "database executes the statements as ent renders them"},
 			Rules: []ruleFn{
+				{ID: "C14.3", Doc: "(shared: a subscription swept before its TTL takes its outstanding messages with it) [dom] every pull restarts the subscription clock", Run: ruleC14_3},
+				{ID: "C14.6", Doc: "(shared: a subscription swept before its TTL takes its outstanding messages with it) [dep] every write of a subscription's expires_at is now + its expiration TTL (never the message retention)", Run: ruleC14_6},
 				{ID: "C07.6", Doc: "(shared) leaf and combinator shapes (idiom-bound)", Run: ruleC07_6},
 				{ID: "C04.9", Doc: "[alias] (shared) no predicate list is built by appending twice to one base slice with spare capacity", Run: ruleC04_9},
 				{ID: "C13.3", Doc: "[atoms][dep] (shared) the snapshot watermark is the oldest outstanding delivery's published_at itself: a seek to a fresh snapshot loses nothing that was outstanding", Run: ruleC13_3},
@@ -69,6 +71,7 @@ func allPropsUnsorted() []*propInfo {
 				"C06.5 (shared) a nack selects only outstanding rows, so a late nack of an acked id neither forwards it to the dead-letter topic nor rewrites it. Deliberately not demanded: the completed_at IS NULL guard in modify-deadline (dropping it does not resurrect an acked message: the pull excludes completed rows). C01.2 (shared) ack statements are keyed by exactly the request's ids; C03.5 ack ids are converted completely and in place or the request fails; C04.9 (shared) no aliased predicate appends; C09.2 / C09.3 (shared) commit errors are reported. C03.6 every StreamingPull frame, the opening one included, reaches the streamer through adaptIn. NOT decided: the history-level claim.",
 			Assumptions: []string{k1Assumption},
 			Rules: []ruleFn{
+				{ID: "C06.1", Doc: "(shared: only pull, nack and the sweep may dead-letter: a modify-deadline that does so forwards deliveries a late nack must not touch) [who] callers of deadLetterDelivery", Run: ruleC06_1, Ctrl: true},
 				{ID: "C03.6", Doc: "[dep] every StreamingPull frame (the opening one included) reaches the streamer through adaptIn", Run: ruleC03_6},
 				{ID: "C04.9", Doc: "[alias] (shared) no predicate list is built by appending twice to one base slice with spare capacity", Run: ruleC04_9},
 				{ID: "C01.2", Doc: "[atoms] (shared) the ack addresses exactly the requested ids (every one of them): `id IN ids ∧ completed_at IS NULL`, nothing narrower", Run: ruleC01_2},
@@ -157,6 +160,7 @@ func allPropsUnsorted() []*propInfo {
 				"C12.5 also: the scanned rows are not sorted or overwritten before the page token is taken; C17.4 (shared). NOT decided: races under PostgreSQL isolation levels, histories, 'inherits no backlog' beyond C12.3.",
 			Assumptions: []string{k1Assumption, "SQLite evaluates LIKE case-insensitively, PostgreSQL case-sensitively (documented behaviour)"},
 			Rules: []ruleFn{
+				{ID: "C12.7", Doc: "[atoms] every lookup of snapshots selects by name / id / prefix only: the siblings agree on which snapshots exist", Run: ruleC12_7},
 				{ID: "C17.4", Doc: "[dep] (shared) a dead-letter topic is attached only from a lookup made for the request (live row), never from a cached edge", Run: ruleC17_4},
 				{ID: "C12.1", Doc: "[atoms] live-only name resolution", Run: ruleC12_1, Ctrl: true},
 				{ID: "C12.2", Doc: "[dom] create: exists check, duplicate-key mapping, AlreadyExists", Run: ruleC12_2},
@@ -191,6 +195,7 @@ func allPropsUnsorted() []*propInfo {
 				"Revived messages get fresh retention: C13.1/C13.2 re-open mutators (evaluated under C13). C14.6 every write of a subscription's expires_at is now + its expiration TTL and derives from nothing that is the message retention. NOT decided: exactness of durations, timing around deadlines, the interval codec.",
 			Assumptions: []string{k1Assumption},
 			Rules: []ruleFn{
+				{ID: "C17.5", Doc: "[dom] (shared) zero durations select the documented defaults", Run: ruleC17_5},
 				{ID: "C14.1", Doc: "[dep] creation timestamps", Run: ruleC14_1},
 				{ID: "C14.2", Doc: "[atoms] not delivered after retention", Run: ruleC14_2},
 				{ID: "C14.3", Doc: "[dom] every pull restarts the subscription clock", Run: ruleC14_3},
@@ -280,6 +285,8 @@ func allPropsUnsorted() []*propInfo {
 				{ID: "C06.2", Doc: "(shared: the guard of the *DeadLetterTopicID dereference in deadLetterDataFromEntities) [dom][atoms] trigger condition", Run: ruleC06_2},
 				{ID: "C16.1", Doc: "[K6][K10] panic preconditions refuted at every request-tainted call site; nil dereference of absent sub-messages (C16.2)", Run: ruleC16},
 				{ID: "C16.4", Doc: "[K9b] the effective page size is ≥ 1 on every path (no index panic on an empty page)", Run: ruleC16_4},
+				{ID: "C16.5", Doc: "[dom] an eager-loaded edge that was loaded with a filter is dereferenced only under a nil test", Run: ruleC16_5},
+				{ID: "C16.6", Doc: "[dom] every value added to a Prometheus counter is the conversion of an integer count (Counter.Add panics on a negative value)", Run: ruleC16_6},
 				{ID: "C09.4", Doc: "[dom] (shared, C16.3) one operation, one transaction", Run: ruleC09_4},
 				{ID: "C09.5", Doc: "[dom] (shared, C16.3) no error after commit", Run: ruleC09_5},
 			},
@@ -315,6 +322,7 @@ func allPropsUnsorted() []*propInfo {
 				"C18.4 also: match says no only under an exhausted count, another operation, or a missing / different injected parameter (judged per path). NOT decided: the exact count min(N, matches) over schedules (C18.1/2 are its memory-ordering and re-check conditions), request-to-parameter extraction for all messages.",
 			Assumptions: []string{"sync/atomic and sync.RWMutex semantics"},
 			Rules: []ruleFn{
+				{ID: "C18.8", Doc: "[who] the request-to-parameter extraction reads no package-level state besides the pool", Run: ruleC18_8},
 				{ID: "C18.1", Doc: "atomic discipline on Description.Count", Run: ruleC18_1, Ctrl: true},
 				{ID: "C18.2", Doc: "[K6 sign] fire exactly for a non-negative remainder; re-match on a lost race", Run: ruleC18_2},
 				{ID: "C18.3", Doc: "[lock] fault table under Set.mu", Run: ruleC18_3, Ctrl: true},
@@ -335,6 +343,7 @@ func allPropsUnsorted() []*propInfo {
 				"NOT decided: 'never pushed again / pushed again after the backoff' (C03/C04 behaviour), concurrency <= window as a runtime count, out-of-order endpoints.",
 			Assumptions: []string{"net/http reports transport failures as a non-nil error from Client.Do"},
 			Rules: []ruleFn{
+				{ID: "C19.2", Doc: "[tab] the rendered publish time carries its zone (zone verb or UTC conversion)", Run: ruleC19_2format},
 				{ID: "C11.4", Doc: "[dom] (shared) the pusher's stream keeps its pending set exact (what is in flight counts against the window until the database says it is settled)", Run: ruleC11_4_7},
 				{ID: "C19.1", Doc: "[tab][dom] status mapping", Run: ruleC19_1},
 				{ID: "C19.2", Doc: "[dep] envelope", Run: ruleC19_2},
@@ -354,6 +363,7 @@ func allPropsUnsorted() []*propInfo {
 				"C08.8 (shared) the filter parser is built with exactly UseLookahead and Unquote(String); C07.6 Term negation is a parity of Not flags. NOT decided: agreement with the documented Pub/Sub semantics over the infinite input space, boolean laws, precedence as implemented by participle.",
 			Assumptions: []string{"participle builds the parser the struct tags describe", k1Assumption},
 			Rules: []ruleFn{
+				{ID: "C08.1", Doc: "(shared: the stored filter text is the validated text: the evaluated filter is the one the client wrote) [who][dom] validate before persist", Run: ruleC08_1},
 				{ID: "C08.8", Doc: "[who] the filter parser is built with exactly UseLookahead and Unquote(String): no option that changes the accepted language or rewrites tokens", Run: ruleC08_8},
 				{ID: "C08.6", Doc: "[dom] (shared) a filter text produced by the printer (canonical form) keeps the grouping of negated sub-conditions", Run: ruleC08_6},
 				{ID: "C07.1", Doc: "[dom] routing gate, both directions", Run: ruleC07_1},
@@ -393,6 +403,8 @@ func allPropsUnsorted() []*propInfo {
 				"C17.3 in the stored-duration codec no floating-point value computed from the parsed digits is truncated to an integer (a length-derived power of ten is exact and allowed; math.Round first is allowed) and a duration is never represented as a float (no Seconds/Minutes/Hours, FormatFloat/ParseFloat, or 64-bit-count-to-float conversion). C17.1 independence: the response field fed by column X sits under a test of X only, never of a sibling column (except attempts under the dead-letter topic). C17.2 also: the handlers switch on the mask's own path strings (a pass-through helper may fetch them, not compute new ones); C17.4 a dead-letter topic is attached only as the entity a lookup returned for this request, never a cached edge. NOT decided: the rest of the interval codec (all durations / all PostgreSQL interval strings — numeric), defaults' values, sequences of updates.",
 			Assumptions: []string{k1Assumption, "protobuf/ent field names correspond one-to-one as in the generated code"},
 			Rules: []ruleFn{
+				{ID: "C17.5", Doc: "[dom] zero durations select the documented defaults (a comparison with 0, not only a nil test)", Run: ruleC17_5},
+				{ID: "C17.3", Doc: "[who] Interval.Value writes the exact duration (no rounding)", Run: ruleC17_3value},
 				{ID: "C17.1", Doc: "[dep] create mapping is complete", Run: ruleC17_1},
 				{ID: "C17.1", Doc: "[dep] each optional column is read back independently of its siblings", Run: ruleC17_1indep},
 				{ID: "C17.2", Doc: "[dep] the handlers switch on the mask's own path strings, unaltered", Run: ruleC17_2verbatim},
